@@ -19,7 +19,7 @@ COMPONENTS = {"real": ["ECAgent.Core.SystemManager.add_system/remove_system/exec
                        "ECAgent.Collectors.Collector (default priority)"],
               "stub": ["System.execute / Collector.collect bodies are harness recorders"]}
 PROBES = ["tie_of_3", "readd_after_remove", "insert_head", "insert_middle", "insert_tail",
-          "negative_next_to_collector", "dup_rejected", "unknown_rejected", "extreme_priority", "same_object_reregistered", "systems_with_value_equality", "falsy_systems"]
+          "negative_next_to_collector", "dup_rejected", "unknown_rejected", "extreme_priority", "same_object_reregistered", "systems_with_value_equality", "falsy_systems", "system_waiting_for_its_start"]
 TECHNIQUE = "deterministic simulation: seeded registration/removal histories with injected rejections vs a sorted-list reference, per-timestep execution log oracle"
 LEVEL_TEXT = ("Seeded search over registration histories; after every timestep the execution order recorded from the real "
               "scheduler must equal the reference (descending priority, registration order among equals) and after every "
@@ -66,6 +66,10 @@ def generate(rng, tier):
             ops.append({"op": "step", "n": rng.choice([1, 1, 1, 2, 3])})
         else:
             ops.append({"op": "lookup", "k": rng.randrange(n)})
+    if rng.random() < 0.3:       # some systems only start later: registration order among equals is fixed when they register,
+        for p_ in pool:          # not when they first run
+            if p_["kind"] == "system" and rng.random() < 0.35:
+                p_["start"] = rng.randint(1, 8)
     if rng.random() < 0.15:      # ids that are falsy or carry format / template syntax (messages quote the id)
         for name in rng.sample(["", "{x}", "%s", "{}", "a b", "{0}"], rng.randint(1, 2)):
             pool[rng.randrange(n)]["id"] = name
@@ -101,7 +105,7 @@ def execute(sc, ctx):
         kind = op["op"]
         if kind in ("add", "remove", "lookup"):
             spec = dict(pool[op["k"] % len(pool)])
-            spec.update({"start": 0, "end": 2 ** 63 - 1, "freq": 1})
+            spec.update({"start": int(spec.get("start", 0)) if spec.get("kind") == "system" else 0, "end": 2 ** 63 - 1, "freq": 1})
             sid = spec["id"]
         if kind == "add":
             if ref.has(sid):
@@ -168,7 +172,10 @@ def execute(sc, ctx):
                 w.log = []
                 ctx.expect_ok("step", model.execute)
                 ctx.sim_time += 1
-                want = ref.ids()
+                want = ref.due(ref.t)          # everybody is always on, except systems whose start still lies ahead
+                if len(want) != len(ref.q):
+                    ctx.probe("system_waiting_for_its_start")
+                ref.t += 1
                 ctx.event("step", w.log)
                 ctx.check(w.log == want, "order", f"executed {w.log}, reference order {want} "
                                                   f"(prios {[s['prio'] for s in ref.q]})")
